@@ -71,7 +71,11 @@ def translate_and_run(exe, lines, wd, tag, cflags=('-O1',)):
 def insn_level(chk, exe, oracle, infos, lines, wd, tag='insn', cflags=('-O1',)):
     cases = [G.parse_case(l) for l in lines]
     c02.expectations(cases, infos, oracle)
-    runnable = [c for c in cases if c['exp'] is not None and c['exp'] != 'nodoc']
+    runnable = [c for c in cases if c['exp'] is not None]
+    # long double instructions have no DocSpec value: the reference is the interpreter of the same tree (the property's own
+    # wording) and the host compiler's x87 arithmetic (harness "native"), any NaN ~ any NaN
+    ldcases = [c for c in runnable if c['exp'] == 'nodoc']
+    ldref = c02.run_harness(exe, [c['line'] for c in ldcases]) if ldcases else {}
     byid = {c['id']: c for c in runnable}
     bad = []
     todo = [c['line'] for c in runnable]
@@ -101,6 +105,17 @@ def insn_level(chk, exe, oracle, infos, lines, wd, tag='insn', cflags=('-O1',)):
         obs = G.parse_obs(tok) if tok else None
         if obs is None:
             bad.append((c, 'mir2c', 'no result from the compiled translation: %s' % tok))
+            continue
+        if c['exp'] == 'nodoc':
+            ref = ldref.get(c['id'], {})
+            chk.dist('oracle', 'interp+native-long-double')
+            for which in ('interp', 'native'):
+                rt = ref.get(which)
+                robs = G.parse_obs(rt) if rt else None
+                if robs is not None and not c02.ld_same(c, obs, robs):
+                    bad.append((c, 'mir2c', 'long double result of the compiled translation %s differs from %s %s' % (
+                        tok, 'the interpreter\'s' if which == 'interp' else 'the host compiler\'s', rt)))
+                    break
             continue
         m = c02.check_obs(c, obs)
         if m:
